@@ -99,10 +99,20 @@ type outcome struct {
 	pan any
 }
 
+// the errors passed to cancel deliberately have three different dynamic types (callers pass
+// whatever error they have): a second cancel with another type must be as harmless as the first
+type c10ValueErr struct{ msg string }
+
+func (e c10ValueErr) Error() string { return e.msg }
+
+type c10PtrErr struct{ code int }
+
+func (e *c10PtrErr) Error() string { return fmt.Sprintf("cancelled by reducer (%d)", e.code) }
+
 var (
-	errMap1 = errors.New("cancelled by mapper (fault 1)")
-	errMap2 = errors.New("cancelled by mapper (fault 2)")
-	errRed  = errors.New("cancelled by reducer")
+	errMap1 error = errors.New("cancelled by mapper (fault 1)")
+	errMap2 error = c10ValueErr{"cancelled by mapper (fault 2)"}
+	errRed  error = &c10PtrErr{7}
 )
 
 // runPlan executes one plan against the real code and applies the oracle.
